@@ -55,15 +55,17 @@ Definition subclass_radd (b a : cls) : bool :=
   | _, _ => false
   end.
 
-(* Variant switches (DESIGN 2.5): behaviours of /repo that are recorded findings.  The harness
-   measures which variant the current code exhibits and passes it to the correspondence; the
-   theorems are proved for every variant, the full flag statement for the repaired one. *)
+(* Variant switches (DESIGN 2.5) for two findings that were repaired in /repo (7ebf769,
+   c9dadbb).  [variant_live] is what /repo does now and is THE model: the correspondence
+   requires the running code to exhibit it (Corr.vt_is_live), the property theorems of
+   Props.v are stated at it.  [variant_old] is kept only so that the old defects stay
+   expressible (refutations in C04/Refuted.v); the lemmas are proved for every variant. *)
 Record variant := {
   v_frvec_lin : bool;     (* FunctionalRightVectorMult keeps is_linear of its operand *)
   v_vecsum_field : bool   (* OperatorVectorSum accepts an operator whose range is the field *)
 }.
-Definition variant_current : variant := {| v_frvec_lin := false; v_vecsum_field := false |}.
-Definition variant_repaired : variant := {| v_frvec_lin := true; v_vecsum_field := true |}.
+Definition variant_old : variant := {| v_frvec_lin := false; v_vecsum_field := false |}.
+Definition variant_live : variant := {| v_frvec_lin := true; v_vecsum_field := true |}.
 
 Section Model.
 Context {T : Type} `{Num T}.
